@@ -82,17 +82,25 @@ def gen_cases(tier, seed, env_text):
     atoms3 = [v for v in recs if v["k"] in ("atom", "str")]
     add("pairs/recs x {int, None, str} (exhaustive)", ([v, a] for v in recs for a in atoms3 if v is not a), [2, 3])
     add("pairs/recs (sampled)", (rng.sample(recs, 2) for _ in range(4000 if tier == "quick" else 60000)), [2, 3])
+    two_lists = [v for v in recs if v["k"] == "list" and len(v["a"]) == 2 and all(x["k"] == "dict" for x in v["a"])]
+    add("pairs of lists of two dicts (exhaustive): merges of already merged TypedDicts", itertools.combinations(two_lists, 2), [3])
+    tup = [absmodel.T("tuple", "", [d]) for d in recs if d["k"] == "dict"]
+    tpairs = list(itertools.combinations(tup, 2))
+    add("pairs of 1-tuples holding a dict (%s): same keys in another insertion order" % ("sampled" if tier == "quick" else "exhaustive"),
+        rng.sample(tpairs, 3000) if tier == "quick" else tpairs, [2, 3])
     # the limit is lowered between tracing and stub generation: types collected under k1 = 3, merged under k < 3
     add("limit lowered after tracing (k1=3): singles wide+recs+tiny2", ([v] for v in wide + recs + tiny2), [0, 1, 2], k1=3)
     add("limit lowered after tracing (k1=3): pairs recs (sampled)", (rng.sample(recs + wide[:12], 2) for _ in range(1500)), [0, 2], k1=3)
     if tier == "quick":
         pairs = list(itertools.combinations(small1, 2))
-        add("pairs/small1 (exhaustive)", pairs, [0, 2])
-        add("pairs/small1 k in {1,3} (sampled)", rng.sample(pairs, 3000), [1, 3])
+        add("pairs/small1 (exhaustive)", pairs, [2])
+        add("pairs/small1 k in {0,1,3} (sampled)", rng.sample(pairs, 3000), [0, 1, 3])
         small0 = [v for v in small1 if len(json.dumps(v)) < 260][:34]
-        add("triples/small0 (exhaustive)", itertools.combinations(small0, 3), [0, 2, 3])
-        add("pairs/wide (exhaustive)", itertools.combinations(wide, 2), [0, 3, 10])
-        add("pairs/tiny2 (sampled)", rng.sample(list(itertools.combinations(tiny2, 2)), 3000), [0, 2, 3])
+        add("triples/small0 (exhaustive)", itertools.combinations(small0, 3), [2])
+        add("triples/small0 k in {0,3} (sampled)", rng.sample(list(itertools.combinations(small0, 3)), 1500), [0, 3])
+        add("pairs/wide (exhaustive)", itertools.combinations(wide, 2), [3])
+        add("pairs/wide k in {0,10} (sampled)", rng.sample(list(itertools.combinations(wide, 2)), 2000), [0, 10])
+        add("pairs/tiny2 (sampled)", rng.sample(list(itertools.combinations(tiny2, 2)), 2000), [0, 2, 3])
         for size in (2, 3, 4, 5):
             add("random multisets size %d over full1+wide+tiny2" % size,
                 (rng.sample(full1 + wide + tiny2 + recs, size) for _ in range(1500)), [rng.choice(KS_ALL)])
@@ -120,6 +128,13 @@ def kinds_in(term, acc=None):
     for x in term["a"] + term["u"]:
         kinds_in(x, acc)
     return acc
+
+
+def _has_sub_key(v):
+    if v["k"] in ("dict", "ddict"):
+        if any(p["a"][0]["k"] == "str" and p["a"][0]["a"] for p in v["a"]):
+            return True
+    return any(_has_sub_key(x) for x in v["a"])
 
 
 def nontrivial(rec):
@@ -177,6 +192,11 @@ def main(pid, tier, seed, replay=None):
                    "n_values": len(rec["vals"]),
                    "errs": sorted({r["err"] for r in rec["runs"]} - {"NONE"})}
             c = case_by_tid[v["tid"]]
+            if clause == "Tight":
+                vio["has_str_subclass_key"] = '"k": "pair", "n": "", "a": [{"k": "str"' in json.dumps(rec["vals"]) and \
+                    any(_has_sub_key(x) for x in rec["vals"])
+                if vio["has_str_subclass_key"]:
+                    vio.pop("value_kinds"), vio.pop("n_values"), vio.pop("k")
             if clause == "TDBound" and rec["k1"] != rec["k"]:
                 tys = [r["ty"] for r in rec["runs"] if r["err"] == "NONE"]
                 vio["oversized_typed_dict_at_top_level"] = any(
